@@ -74,7 +74,14 @@ pub(super) mod rig {
         fn handle_measurement(&mut self, m: Measurement) {
             self.log.lock().unwrap().push(format!(
                 "meas {:?}->{:?} s={:?} r={:?} rd={:?} rdisp={:?} leap={:?} prec={}",
-                m.sender_id, m.receiver_id, m.sender_ts, m.receiver_ts, m.root_delay, m.root_dispersion, m.leap, m.precision
+                m.sender_id,
+                m.receiver_id,
+                m.sender_ts,
+                m.receiver_ts,
+                m.root_delay,
+                m.root_dispersion,
+                m.leap,
+                m.precision
             ));
         }
         fn set_usable(&mut self, usable: bool) {
@@ -144,7 +151,11 @@ pub(super) mod rig {
         v
     }
     pub fn ef(v5: bool, ty: u16, body: &[u8], min: usize) -> Vec<u8> {
-        if v5 { ef5(ty, body) } else { ef4(ty, body, min) }
+        if v5 {
+            ef5(ty, body)
+        } else {
+            ef4(ty, body, min)
+        }
     }
     pub const T_UID: u16 = 0x0104;
     pub const T_COOKIE: u16 = 0x0204;
@@ -173,7 +184,12 @@ pub(super) mod rig {
             if len < 4 || off + len > data.len() {
                 break;
             }
-            out.push(Field { off, ty, len, body: data[off + 4..off + len].to_vec() });
+            out.push(Field {
+                off,
+                ty,
+                len,
+                body: data[off + 4..off + len].to_vec(),
+            });
             off += pad4(len);
         }
         (out, off.min(data.len()))
@@ -183,7 +199,9 @@ pub(super) mod rig {
     pub fn authenticator(cipher: &dyn Cipher, aad: &[u8], plaintext: &[u8]) -> Vec<u8> {
         let mut buf = vec![0u8; plaintext.len() + 64];
         buf[..plaintext.len()].copy_from_slice(plaintext);
-        let r = cipher.encrypt(&mut buf, plaintext.len(), aad).expect("encrypt");
+        let r = cipher
+            .encrypt(&mut buf, plaintext.len(), aad)
+            .expect("encrypt");
         let nonce = buf[..r.nonce_length].to_vec();
         let ct = buf[r.nonce_length..r.nonce_length + r.ciphertext_length].to_vec();
         let mut body = Vec::new();
@@ -241,11 +259,26 @@ pub(super) mod rig {
         if end != pt.len() {
             return None;
         }
-        Some(fields.into_iter().filter(|f| f.ty == T_COOKIE).map(|f| f.body).collect())
+        Some(
+            fields
+                .into_iter()
+                .filter(|f| f.ty == T_COOKIE)
+                .map(|f| f.body)
+                .collect(),
+        )
     }
 
     #[allow(clippy::too_many_arguments)]
-    pub fn hdr4(li: u8, vn: u8, mode: u8, stratum: u8, poll: u8, refid: [u8; 4], reft: [u8; 8], org: [u8; 8]) -> Vec<u8> {
+    pub fn hdr4(
+        li: u8,
+        vn: u8,
+        mode: u8,
+        stratum: u8,
+        poll: u8,
+        refid: [u8; 4],
+        reft: [u8; 8],
+        org: [u8; 8],
+    ) -> Vec<u8> {
         let mut h = vec![0u8; 48];
         h[0] = (li << 6) | ((vn & 7) << 3) | (mode & 7);
         h[1] = stratum;
@@ -260,7 +293,15 @@ pub(super) mod rig {
         h[40..48].copy_from_slice(&[0, 0, 0, 101, 0, 0, 0, 0]);
         h
     }
-    pub fn hdr5(li: u8, mode: u8, stratum: u8, poll: u8, flags: u8, server_cookie: [u8; 8], client_cookie: [u8; 8]) -> Vec<u8> {
+    pub fn hdr5(
+        li: u8,
+        mode: u8,
+        stratum: u8,
+        poll: u8,
+        flags: u8,
+        server_cookie: [u8; 8],
+        client_cookie: [u8; 8],
+    ) -> Vec<u8> {
         let mut h = vec![0u8; 48];
         h[0] = (li << 6) | (5 << 3) | (mode & 7);
         h[1] = stratum;
@@ -308,7 +349,10 @@ pub(super) mod rig {
                 "v4up" => ProtocolVersion::v4_upgrading_to_v5_with_default_tries(),
                 _ => return None,
             };
-            Some(Cfg { pv, k512: k == "512" })
+            Some(Cfg {
+                pv,
+                k512: k == "512",
+            })
         }
     }
 
@@ -324,7 +368,11 @@ pub(super) mod rig {
 
     pub fn decoded(k512: bool, s2c: u8, c2s: u8) -> DecodedServerCookie {
         DecodedServerCookie {
-            algorithm: if k512 { AeadAlgorithm::AeadAesSivCmac512 } else { AeadAlgorithm::AeadAesSivCmac256 },
+            algorithm: if k512 {
+                AeadAlgorithm::AeadAesSivCmac512
+            } else {
+                AeadAlgorithm::AeadAesSivCmac256
+            },
             s2c: cipher(k512, s2c),
             c2s: cipher(k512, c2s),
         }
@@ -333,10 +381,17 @@ pub(super) mod rig {
     pub fn server_config(deny_all: bool) -> ServerConfig {
         ServerConfig {
             denylist: FilterList {
-                filter: if deny_all { vec!["0.0.0.0/0".parse().unwrap()] } else { vec![] },
+                filter: if deny_all {
+                    vec!["0.0.0.0/0".parse().unwrap()]
+                } else {
+                    vec![]
+                },
                 action: FilterAction::Deny,
             },
-            allowlist: FilterList { filter: vec!["0.0.0.0/0".parse().unwrap()], action: FilterAction::Ignore },
+            allowlist: FilterList {
+                filter: vec!["0.0.0.0/0".parse().unwrap()],
+                action: FilterAction::Ignore,
+            },
             rate_limiting_cutoff: Duration::from_millis(0),
             rate_limiting_cache_size: 0,
             require_nts: None,
@@ -423,17 +478,26 @@ pub(super) mod rig {
                 id8.copy_from_slice(&req[40..48]);
             }
         }
-        let uid = walk(req, 48).0.into_iter().find(|f| f.ty == T_UID && f.body.len() >= 32).map(|f| {
-            let mut u = [0u8; 32];
-            u.copy_from_slice(&f.body[..32]);
-            u
-        });
+        let uid = walk(req, 48)
+            .0
+            .into_iter()
+            .find(|f| f.ty == T_UID && f.body.len() >= 32)
+            .map(|f| {
+                let mut u = [0u8; 32];
+                u.copy_from_slice(&f.body[..32]);
+                u
+            });
         (uid, id8)
     }
 
     impl Rig {
         /// A fresh NTS source holding `cookies` (oldest first), or a plain source if `None`.
-        pub fn with_cookies(cfg: Cfg, cookies: Option<Vec<Vec<u8>>>, limits: PollIntervalLimits, desired: PollInterval) -> Rig {
+        pub fn with_cookies(
+            cfg: Cfg,
+            cookies: Option<Vec<Vec<u8>>>,
+            limits: PollIntervalLimits,
+            desired: PollInterval,
+        ) -> Rig {
             let keyset = Arc::new(KeySet::new());
             let log = Arc::new(Mutex::new(Vec::new()));
             let nts = cookies.map(|cs| {
@@ -441,14 +505,28 @@ pub(super) mod rig {
                 for c in cs {
                     stash.store(c);
                 }
-                Box::new(SourceNtsData { cookies: stash, c2s: cipher(cfg.k512, C2S), s2c: cipher(cfg.k512, S2C) })
+                Box::new(SourceNtsData {
+                    cookies: stash,
+                    c2s: cipher(cfg.k512, C2S),
+                    s2c: cipher(cfg.k512, S2C),
+                })
             });
-            let info = NtpSourceInfo { ip_list: Arc::from(Vec::<IpAddr>::new()), server_id: Default::default(), local_stratum: 16 };
+            let info = NtpSourceInfo {
+                ip_list: Arc::from(Vec::<IpAddr>::new()),
+                server_id: Default::default(),
+                local_stratum: 16,
+            };
             let (src, _init) = NtpSource::new(
                 SocketAddr::new(IpAddr::V4(Ipv4Addr::new(10, 0, 0, 2)), 123),
-                SourceConfig { poll_interval_limits: limits, initial_poll_interval: limits.min },
+                SourceConfig {
+                    poll_interval_limits: limits,
+                    initial_poll_interval: limits.min,
+                },
                 cfg.pv,
-                RecCtl { log: log.clone(), desired },
+                RecCtl {
+                    log: log.clone(),
+                    desired,
+                },
                 nts,
                 crate::ClockId(7),
                 Arc::new(RwLock::new(info)),
@@ -487,10 +565,11 @@ pub(super) mod rig {
         }
 
         pub fn timer(&mut self) -> Out {
-            let acts: Vec<NtpSourceAction> = match crate::verif::common::catch(|| self.src.handle_timer().collect()) {
-                Ok(a) => a,
-                Err(e) => return Out::Panic(e),
-            };
+            let acts: Vec<NtpSourceAction> =
+                match crate::verif::common::catch(|| self.src.handle_timer().collect()) {
+                    Ok(a) => a,
+                    Err(e) => return Out::Panic(e),
+                };
             let mut send = None;
             let mut timer = None;
             for a in &acts {
@@ -505,7 +584,13 @@ pub(super) mod rig {
                 (Some(b), Some(d)) if acts.len() == 2 => {
                     let (uid, id8) = request_ids(self.cfg.v5(), &b);
                     let genuine = serve(&mut self.server, &b);
-                    self.exchanges.push(Exchange { req: b.clone(), uid, id8, genuine, delivered: false });
+                    self.exchanges.push(Exchange {
+                        req: b.clone(),
+                        uid,
+                        id8,
+                        genuine,
+                        delivered: false,
+                    });
                     Out::Send(b, d)
                 }
                 _ => Out::Other(format!("{:?}", fmt_actions(acts.into_iter()))),
@@ -639,8 +724,12 @@ fn apply(rig: &mut Rig, ev: Ev) -> impl std::future::Future<Output = bool> + '_ 
             Ev::R => {
                 let Some(x) = live(rig, &k) else { return false };
                 let Some(g) = x.genuine else { return false };
-                let Some((pre, _pt, _post)) = split(rig, &g) else { return false };
-                let Some(p) = kiss_variant(rig, &pre, "RATE", k.last_poll) else { return false };
+                let Some((pre, _pt, _post)) = split(rig, &g) else {
+                    return false;
+                };
+                let Some(p) = kiss_variant(rig, &pre, "RATE", k.last_poll) else {
+                    return false;
+                };
                 let mut d = p.clone();
                 d.extend(authenticator(&*rig.s2c, &p, &[]));
                 rig.incoming(&d);
@@ -672,7 +761,20 @@ async fn build(scn: Scn, word: &[Ev]) -> Option<Rig> {
     Some(rig)
 }
 
-type Masked = (String, i8, i8, Option<bool>, bool, u8, String, u8, usize, usize, (bool, u16, bool), bool);
+type Masked = (
+    String,
+    i8,
+    i8,
+    Option<bool>,
+    bool,
+    u8,
+    String,
+    u8,
+    usize,
+    usize,
+    (bool, u16, bool),
+    bool,
+);
 fn masked(rig: &Rig, k: &Key) -> Masked {
     (
         k.version.clone(),
@@ -736,7 +838,9 @@ fn authentic(rig: &Rig, d: &[u8], pend: Option<&Exchange>) -> Option<Auth> {
         return None;
     }
     let opened = open_all(&*rig.s2c, d);
-    let bound = opened.iter().any(|(off, pt)| contains(&d[48..*off], &uid) || contains(pt, &uid));
+    let bound = opened
+        .iter()
+        .any(|(off, pt)| contains(&d[48..*off], &uid) || contains(pt, &uid));
     if !bound {
         return None;
     }
@@ -772,7 +876,11 @@ fn alphabet(rig: &Rig, k: &Key, all_bits: bool) -> Vec<(String, Vec<u8>)> {
         for mode in [4u8, 3, 1, 2, 5] {
             for stratum in [0u8, 1, 16, 17] {
                 for code in ["RATE", "DENY", "RSTR", "NTSN", "XXXX", "\0\0\0\0"] {
-                    for (ul, u) in [("none", None), ("ok", Some(uid)), ("wrong", Some(wrong_uid))] {
+                    for (ul, u) in [
+                        ("none", None),
+                        ("ok", Some(uid)),
+                        ("wrong", Some(wrong_uid)),
+                    ] {
                         for (il, i) in [("ok", id8), ("bad", bad_id8)] {
                             for (rl, reft) in [("0", [0u8; 8]), ("up", UPGRADE_TS)] {
                                 let mut refid = [0u8; 4];
@@ -782,7 +890,10 @@ fn alphabet(rig: &Rig, k: &Key, all_bits: bool) -> Vec<(String, Vec<u8>)> {
                                     d.extend(ef4(T_UID, &u, 28));
                                 }
                                 out.push((
-                                    format!("k4:vn{vn},m{mode},s{stratum},c{},uid={ul},id={il},rt={rl}", code.trim_matches('\0')),
+                                    format!(
+                                        "k4:vn{vn},m{mode},s{stratum},c{},uid={ul},id={il},rt={rl}",
+                                        code.trim_matches('\0')
+                                    ),
                                     d,
                                 ));
                             }
@@ -797,19 +908,35 @@ fn alphabet(rig: &Rig, k: &Key, all_bits: bool) -> Vec<(String, Vec<u8>)> {
         d.extend(ef4(T_UID, &uid, 28));
         out.push((format!("k4:vn{vn},m4,s0,cDENY,uid=ok,id=ok,rt=0"), d));
     }
-    let polls: [u8; 8] = [0, (own - 1) as u8, own as u8, (own + 1) as u8, 126, 127, 128, 255];
+    let polls: [u8; 8] = [
+        0,
+        (own - 1) as u8,
+        own as u8,
+        (own + 1) as u8,
+        126,
+        127,
+        128,
+        255,
+    ];
     for mode in [4u8, 3] {
         for stratum in [0u8, 1, 16, 17] {
             for poll in polls {
                 for flags in 0u8..8 {
-                    for (ul, u) in [("none", None), ("ok", Some(uid)), ("wrong", Some(wrong_uid))] {
+                    for (ul, u) in [
+                        ("none", None),
+                        ("ok", Some(uid)),
+                        ("wrong", Some(wrong_uid)),
+                    ] {
                         for (il, i) in [("ok", id8), ("bad", bad_id8)] {
                             let mut d = hdr5(0, mode, stratum, poll, flags, *b"DENYDENY", i);
                             if let Some(u) = u {
                                 d.extend(ef5(T_UID, &u));
                             }
                             d.extend(ef5(T_DRAFT, DRAFT));
-                            out.push((format!("k5:m{mode},s{stratum},p{poll},f{flags},uid={ul},id={il}"), d));
+                            out.push((
+                                format!("k5:m{mode},s{stratum},p{poll},f{flags},uid={ul},id={il}"),
+                                d,
+                            ));
                         }
                     }
                 }
@@ -835,13 +962,21 @@ fn alphabet(rig: &Rig, k: &Key, all_bits: bool) -> Vec<(String, Vec<u8>)> {
     }
 
     let Some(x) = last else { return out };
-    let Some(gen_) = x.genuine.clone() else { return out };
-    let Some((pre, pt, post)) = split(rig, &gen_) else { return out };
+    let Some(gen_) = x.genuine.clone() else {
+        return out;
+    };
+    let Some((pre, pt, post)) = split(rig, &gen_) else {
+        return out;
+    };
     let hdr = gen_[..48].to_vec();
     let draft = if v5 { ef5(T_DRAFT, DRAFT) } else { vec![] };
     let rand_key = cipher(rig.cfg.k512, 0x33);
     let other_len = cipher(!rig.cfg.k512, S2C);
-    let keys: [(&str, &dyn crate::packet::Cipher); 3] = [("c2s", &*rig.c2s), ("rand", &*rand_key), ("otherlen", &*other_len)];
+    let keys: [(&str, &dyn crate::packet::Cipher); 3] = [
+        ("c2s", &*rig.c2s),
+        ("rand", &*rand_key),
+        ("otherlen", &*other_len),
+    ];
 
     // --- (3) genuine answer re-keyed ---------------------------------------------------------
     for (kl, key) in keys {
@@ -865,7 +1000,11 @@ fn alphabet(rig: &Rig, k: &Key, all_bits: bool) -> Vec<(String, Vec<u8>)> {
     }
 
     // --- (5) authenticators under the wrong key over kiss headers -----------------------------
-    let codes: &[&str] = if v5 { &["RATE", "DENY", "NTSN", "NONE"] } else { &["RATE", "DENY", "RSTR", "NTSN", "XXXX"] };
+    let codes: &[&str] = if v5 {
+        &["RATE", "DENY", "NTSN", "NONE"]
+    } else {
+        &["RATE", "DENY", "RSTR", "NTSN", "XXXX"]
+    };
     for code in codes {
         if let Some(p) = kiss_variant(rig, &pre, code, own) {
             for (kl, key) in keys {
@@ -1050,7 +1189,10 @@ fn inject(rig: &mut Rig, before: &Key, desc: &str, d: &[u8]) -> Verdict {
             return Verdict {
                 auth: auth.is_some(),
                 changed: true,
-                violations: vec![("C07:panic".into(), format!("handle_incoming panicked on {desc}: {e}"))],
+                violations: vec![(
+                    "C07:panic".into(),
+                    format!("handle_incoming panicked on {desc}: {e}"),
+                )],
                 obs: format!("panic {e}"),
             };
         }
@@ -1060,7 +1202,10 @@ fn inject(rig: &mut Rig, before: &Key, desc: &str, d: &[u8]) -> Verdict {
     let fields = diff(before, &after);
     let changed = !acts.is_empty() || !log.is_empty() || !fields.is_empty();
     let mut violations = Vec::new();
-    let obs = format!("auth={} actions={acts:?} controller={log:?} changed_fields={fields:?}", auth.is_some());
+    let obs = format!(
+        "auth={} actions={acts:?} controller={log:?} changed_fields={fields:?}",
+        auth.is_some()
+    );
     match &auth {
         None => {
             if changed {
@@ -1119,7 +1264,12 @@ fn inject(rig: &mut Rig, before: &Key, desc: &str, d: &[u8]) -> Verdict {
             }
         }
     }
-    Verdict { auth: auth.is_some(), changed, violations, obs }
+    Verdict {
+        auth: auth.is_some(),
+        changed,
+        violations,
+        obs,
+    }
 }
 
 #[derive(Default)]
@@ -1133,16 +1283,28 @@ fn category(desc: &str) -> &str {
     if c == "auth" || c == "s2c" || c == "real" {
         // keep the sub label up to the first '-' for the interesting groups
         let rest = &desc[c.len() + 1..];
-        let sub = rest.split(|ch: char| ch == '-' || ch.is_ascii_digit()).next().unwrap_or("");
+        let sub = rest
+            .split(|ch: char| ch == '-' || ch.is_ascii_digit())
+            .next()
+            .unwrap_or("");
         return &desc[..c.len() + 1 + sub.len()];
     }
     c
 }
 
 /// Sweep the complete alphabet at the state reached by `word`.
-async fn sweep(ctx: &Ctx, found: &Mutex<Found>, scn: Scn, sidx: usize, word: &[Ev], all_bits: bool) {
+async fn sweep(
+    ctx: &Ctx,
+    found: &Mutex<Found>,
+    scn: Scn,
+    sidx: usize,
+    word: &[Ev],
+    all_bits: bool,
+) {
     let cfg = scn;
-    let Some(mut rig) = build(cfg, word).await else { return };
+    let Some(mut rig) = build(cfg, word).await else {
+        return;
+    };
     let mut before = rig.key();
     let mut alpha = alphabet(&rig, &before, all_bits);
     let n = alpha.len();
@@ -1150,7 +1312,10 @@ async fn sweep(ctx: &Ctx, found: &Mutex<Found>, scn: Scn, sidx: usize, word: &[E
     // has absorbed all of them
     let pend = live(&rig, &before);
     let mut order: Vec<usize> = (0..n).collect();
-    let is_auth: Vec<bool> = alpha.iter().map(|(_, d)| authentic(&rig, d, pend.as_ref()).is_some()).collect();
+    let is_auth: Vec<bool> = alpha
+        .iter()
+        .map(|(_, d)| authentic(&rig, d, pend.as_ref()).is_some())
+        .collect();
     order.sort_by_key(|i| is_auth[*i]);
     let w = word_str(word);
     let mut local: BTreeMap<String, u64> = BTreeMap::new();
@@ -1175,12 +1340,22 @@ async fn sweep(ctx: &Ctx, found: &Mutex<Found>, scn: Scn, sidx: usize, word: &[E
         let cat = category(&desc).to_string();
         *local.entry(format!("inj.{cat}")).or_insert(0) += 1;
         if v.auth {
-            *local.entry(format!("authentic.{}", if v.changed { "effect" } else { "ignored" })).or_insert(0) += 1;
+            *local
+                .entry(format!(
+                    "authentic.{}",
+                    if v.changed { "effect" } else { "ignored" }
+                ))
+                .or_insert(0) += 1;
             if v.changed {
                 *local.entry(format!("authentic_effect.{cat}")).or_insert(0) += 1;
             }
         } else {
-            *local.entry(format!("not_authentic.{}", if v.changed { "EFFECT" } else { "ignored" })).or_insert(0) += 1;
+            *local
+                .entry(format!(
+                    "not_authentic.{}",
+                    if v.changed { "EFFECT" } else { "ignored" }
+                ))
+                .or_insert(0) += 1;
         }
         if v.auth || v.changed {
             ctx.distinct(common::hash_of(&(scn_name(cfg), &w, &desc)));
@@ -1189,7 +1364,14 @@ async fn sweep(ctx: &Ctx, found: &Mutex<Found>, scn: Scn, sidx: usize, word: &[E
             clean = false;
             let mut f = found.lock().unwrap();
             for (class, what) in v.violations {
-                f.v.push((word.len(), sidx, pos, class, format!("[{} after {w:?}] {what}", scn_name(cfg)), format!("{}|{w}|{desc}", scn_name(cfg))));
+                f.v.push((
+                    word.len(),
+                    sidx,
+                    pos,
+                    class,
+                    format!("[{} after {w:?}] {what}", scn_name(cfg)),
+                    format!("{}|{w}|{desc}", scn_name(cfg)),
+                ));
             }
         }
         if sidx == 1 && (v.auth || v.changed) {
@@ -1212,7 +1394,14 @@ async fn sweep(ctx: &Ctx, found: &Mutex<Found>, scn: Scn, sidx: usize, word: &[E
 
 /// After absorbing every not-authentic datagram, the genuine answer must still have
 /// exactly the effect it has on an untouched twin (identifiers masked).
-async fn twin_check(ctx: &Ctx, found: &Mutex<Found>, cfg: Scn, sidx: usize, word: &[Ev], rig: &mut Rig) {
+async fn twin_check(
+    ctx: &Ctx,
+    found: &Mutex<Found>,
+    cfg: Scn,
+    sidx: usize,
+    word: &[Ev],
+    rig: &mut Rig,
+) {
     let k = rig.key();
     let Some(x) = live(rig, &k) else { return };
     if x.delivered {
@@ -1222,7 +1411,9 @@ async fn twin_check(ctx: &Ctx, found: &Mutex<Found>, cfg: Scn, sidx: usize, word
     let n0 = rig.log_len();
     let acts = rig.incoming(&g);
     let a = (masked(rig, &rig.key()), acts, rig.log_from(n0));
-    let Some(mut twin) = build(cfg, word).await else { return };
+    let Some(mut twin) = build(cfg, word).await else {
+        return;
+    };
     let tk = twin.key();
     let Some(tx) = live(&twin, &tk) else { return };
     let Some(tg) = tx.genuine else { return };
@@ -1295,7 +1486,9 @@ fn replay(ctx: &Ctx, trace: &str) -> String {
     let desc = parts[2].to_string();
     super::block_on_paused(async {
         let found = Mutex::new(Found::default());
-        let Some(mut rig) = build(cfg, &word).await else { return "history not executable".to_string() };
+        let Some(mut rig) = build(cfg, &word).await else {
+            return "history not executable".to_string();
+        };
         let before = rig.key();
         if desc == "twin" {
             let alpha = alphabet(&rig, &before, true);
@@ -1361,7 +1554,10 @@ fn check() {
         ctx.add("transitions", tr);
         ctx.add(&format!("states.{}", scn_name(*scn)), states.len() as u64);
         if fix {
-            ctx.note(&format!("fixpoint.{}", scn_name(*scn)), "state exploration reached a fixpoint");
+            ctx.note(
+                &format!("fixpoint.{}", scn_name(*scn)),
+                "state exploration reached a fixpoint",
+            );
         }
         for (i, w) in states.into_iter().enumerate() {
             work.push((*scn, i, w));
@@ -1372,7 +1568,8 @@ fn check() {
     let found = Mutex::new(Found::default());
     let mut done_len = None;
     for len in 0..=depth {
-        let level: Vec<&(Scn, usize, Vec<Ev>)> = work.iter().filter(|(_, _, w)| w.len() == len).collect();
+        let level: Vec<&(Scn, usize, Vec<Ev>)> =
+            work.iter().filter(|(_, _, w)| w.len() == len).collect();
         if level.is_empty() {
             continue;
         }
